@@ -666,6 +666,9 @@ def _m_setter(ctx, R):
                 any(t.startswith("V:") and t.endswith(":Definition._references.add") for t in tk)
             removed = any(re.match(r"W:Definition\._references\.(remove|discard):%s\._?reference:%s$" % (re.escape(recv), re.escape(recv)), t) for t in tk) or \
                 any(t.startswith("V:") and (t.endswith(":Definition._references.remove") or t.endswith(":Definition._references.discard")) for t in tk)
+            if "O:add-before-remove" in tk:
+                problems.append(("add-before-remove", "on the re-point path the instance is added to the new definition's reference set BEFORE it is removed from the old one: "
+                                 "re-assigning the definition it already references removes it from that definition's reference set"))
             if not new_is_none and not added:
                 problems.append(("no-add", "a path sets the reference to a definition without adding the instance to that definition's reference set"))
             if new_is_none and added:
@@ -861,6 +864,32 @@ def _m2_m6(ctx, R):
     R.floor("M2 unlink entry points", 4)
 
 
+def _m9(ctx, R):
+    R.rule("M9", "no mirror state (outer pins, reference sets) is written before a point where the edit can still be refused")
+    PA = pairing(ctx)
+    n = 0
+    for key, f in sorted(PA.funcs.items()):
+        if is_clone_family(f) or f.name == "__init__":
+            continue
+        res = PA.results[key]
+        hits = {}
+        for rev, tk in res.get("refusal_tokens", []):
+            ws = [t for t in tk if t.startswith(("W:Instance._pins.", "W:OuterPin._instance.", "W:OuterPin._inner_pin.", "W:Definition._references."))]
+            if ws:
+                hits.setdefault(short(rev.stmt, 60), (rev, ws))
+        if any(t.startswith(("Instance._pins", "OuterPin.", "Definition._references")) for t in PA.summary[key]["tokens"]):
+            n += 1
+            if hits:
+                for txt, (rev, ws) in sorted(hits.items()):
+                    R.bad("M9", "%s|%s" % (f.key, txt), f.loc(rev.stmt),
+                          "%s: the edit can still be refused at `%s` after instances were already updated (%s): a refused edit leaves instances with outer pins / reference-set entries for something the definition does not have"
+                          % (f.qualname, txt, "; ".join(w.split(":", 1)[1] for w in ws[:2])))
+            else:
+                R.ok("M9", f.qualname, f.loc())
+    R.count("functions writing mirror state (M9)", n)
+    R.floor("functions writing mirror state (M9)", 8)
+
+
 def _m5_m7(ctx, R):
     R.rule("M5", "Netlist.top_instance / set_top_instance wrap a definition through the reference setter (no direct _reference write)")
     R.rule("M7", "who-may-write for Instance._pins and Definition._references (friend table of O1)")
@@ -943,4 +972,5 @@ def check_c02(ctx, R):
     _m1(ctx, R)
     _m_setter(ctx, R)
     _m2_m6(ctx, R)
+    _m9(ctx, R)
     _m5_m7(ctx, R)
